@@ -80,6 +80,14 @@ CHECKS = {
             "Held on every generated binary tree x root position x both replay modes (inside the callback / collected then replayed in order); sampled trees, complete enumeration per tree. One open known finding (rooted trees whose root has two inner children: the root split gets no proposal) is listed in known_findings.json and announced on every run.",
             "4..200 tips; inner branch = non-trivial split; only apply/undo in enumeration order. " + BASE_NOTE,
             "DESIGN.md §5 C17"),
+    "C18": ("process-level differential monitor: R fresh processes of the shipped binary per command template with the same --seed, byte comparison of stdout, exit status and every output file (threaded variants: record lines as multisets); plus repeated in-process library calls after re-seeding",
+            "Held on all ~100 offline command templates x input families x R runs and 12 library functions; sampled inputs, map-fed outputs have >= 12 entries so that an order coincidence is < 1e-6 per pair.",
+            "--seed always given; network/terminal commands out of reach. " + BASE_NOTE,
+            "DESIGN.md §5 C18"),
+    "C19": ("exhaustive run-time walk of every flag of every command reachable from cmd.RootCmd (DefValue vs Value before any parsing) + end-to-end differential through the shipped binary: flag omitted vs --flag=<documented default> for every (offline template, omitted flag) pair",
+            "The flag walk is exhaustive over the finite flag set (95 commands, ~240 flags); the differential covers every flag of the ~100 offline templates that the template itself does not set.",
+            "download/upload/shell/png covered by the walk only; a command whose identical runs differ is reported inconclusive here and left to C18. " + BASE_NOTE,
+            "DESIGN.md §5 C19"),
 }
 
 PENDING = {}
